@@ -61,7 +61,12 @@ OnByte(st, b) ==
 
 \* GetNextByte returned the "done" error (channel closed and drained)
 OnEOF(st) == IF st.frame = <<>> THEN [st EXCEPT !.done = TRUE]     \* HandleMessages: close(ch_out)
-             ELSE Emit(st, Msg(NonRTCM, st.frame))                 \* every early return hands back the buffer
+             ELSE IF st.phase = "eat" /\ Len(st.frame) = 1
+                  \* eatUntilStartOfFrame hands back one byte with the error; the caller takes a
+                  \* one-byte buffer for a start byte (handler.go:260-276) and asks for the next byte,
+                  \* which fails again: one more read of the closed channel before the buffer is returned
+                  THEN [st EXCEPT !.phase = "leader"]
+                  ELSE Emit(st, Msg(NonRTCM, st.frame))            \* every early return hands back the buffer
 
 \* The three ways pushback.GetNextByte can return, as one function of the remaining input.
 \* Returns <<st', rest'>>.
